@@ -18,6 +18,12 @@ def _origin(frames):
     """First frame of an access stack that is not Go runtime / standard library: who performed the access.
     Returns (kind, frame): kind is 'repo', 'harness' or 'other' (a third-party module)."""
     for fn, path, line in frames:
+        if fn.startswith('verifharness') and fn.split('.')[-1].startswith('Owned'):
+            # "owned read": the harness, in the role of the application, reads a value the framework has handed over for
+            # good (handler argument while the handler runs, InputBodyBytes of an unknown-message handler, result of a
+            # completed call) through one of its vh.Owned* functions.  Such memory has no accessor in the repository;
+            # if the repository still writes to it, the other access of the report is the repository's.
+            return 'owned', (fn.replace('verifharness/', 'harness:'), os.path.basename(path), line)
         if fn.startswith('verifharness') or fn.startswith('main.'):
             return 'harness', (fn, os.path.basename(path), line)
         first = fn.split('/')[0]
@@ -63,7 +69,17 @@ def run(prop, tier, verdict):
     # 1. correlation workloads (true concurrency over protocols / codecs / pipes)
     cells = eng_generic.export(wd, 'Workload', {}, extra_cfg='INVARIANT CapOK')
     conc = [c for c in cells if c['gor'] >= 4]
-    sel = rnd.sample(conc, 60 if tier == 'thorough' else 24)
+    plain = [c for c in conc if not c.get('observe')]
+    sel = rnd.sample(plain, 60 if tier == 'thorough' else 24)
+    # peers with an observing plugin whose write hooks read what their WriteCtx documents (status, output message, swap)
+    # while the replies arrive: binary protocols without pipe always, plus a sample of the other cells of the profile
+    obs = [c for c in conc if c.get('observe')]
+    core = [c for c in obs if c['pipe'] == '' and c['proto'] in ('raw', 'pb', 'thriftbin') and c['codec'] in ('j', 'p', 'b')]
+    sel += core + rnd.sample([c for c in obs if c not in core], 12 if tier == 'thorough' else 4)
+    # raw byte bodies (handler arguments, InputBodyBytes of the unknown-message handlers, call results that are read again
+    # when the whole workload is over) on the raw protocol without transfer filter: every concurrent profile
+    sel += [c for c in plain if c['codec'] == 'b' and c['proto'] == 'raw' and c['pipe'] == '' and c not in sel]
+    sel = [dict(c) for c in sel]
     for i, c in enumerate(sel):
         c['id'] = 'w%d' % i
         c['ops'] = 6
@@ -117,7 +133,7 @@ def run(prop, tier, verdict):
     ignored = 0
     for r in reps:
         fa, fb = r['a'][0], r['b'][0]
-        if r['kinds'] != ['repo', 'repo']:
+        if sorted(r['kinds']) not in (['repo', 'repo'], ['owned', 'repo']):
             ignored += 1
             continue
         key = ' | '.join(sorted(['%s(%s)' % (fa.replace(REPO + '/', '').replace(REPO, 'erpc'), r['a'][1]), '%s(%s)' % (fb.replace(REPO + '/', '').replace(REPO, 'erpc'), r['b'][1])]))
@@ -129,7 +145,7 @@ def run(prop, tier, verdict):
         verdict.report('%s:race:%s' % (prop, key), {'occurrences': v['n'], 'report': v['text']}, {'engine': 'race', 'seed': seedv})
     programs = sum(n for _, n, _, _ in runs)
     cov = {'evaluations': programs, 'distinct_nontrivial': programs,
-           'rule': 'concurrent programs generated from Workload.tla (>= 4 goroutines per session), SessionGen.tla behaviours (free-running), Hub.tla histories, Peer.tla histories, Redial.tla fault sequences and Accept.tla scenarios, executed under the Go race detector; a report counts when, in both access stacks, the first frame that is not Go runtime / standard library belongs to the repository',
+           'rule': 'concurrent programs generated from Workload.tla (>= 4 goroutines per session), SessionGen.tla behaviours (free-running), Hub.tla histories, Peer.tla histories, Redial.tla fault sequences and Accept.tla scenarios, executed under the Go race detector; a report counts when, in both access stacks, the first frame that is not Go runtime / standard library belongs to the repository, or when one of them is an owned read of the harness (vh.Owned*: a value the framework handed over for good) and the other belongs to the repository',
            'race_reports': len(reps), 'reports_outside_repo_ignored': ignored, 'distinct_repo_races': len(seen),
            'samples': [{'engine': n, 'programs': k} for n, k, _, _ in runs]}
     vlib.cleanup(wd)
